@@ -18,17 +18,39 @@ rule("C20.c", "cost, delivered volume and covered steps of an order use one step
 rule("C20.f", "the order report de-duplicates the mapping by index and reads x and c at the variable label", floor=2)
 
 
+rule("C20.m", "an order without a step in the horizon is pinned to 0: it has no mapping row, so neither the boolean flag of full execution "
+              "nor any restriction reaches its variable - only its bounds can make it 'exactly 0 or 1'", floor=1)
 rule("C20.l", "an order takes part whenever its window intersects the horizon: a test that skips an order looks at both ends of its "
               "window (start < horizon end and end > horizon start), never at one end alone", floor=0)
 
 
-@analysis("orderbook", ["C20.a", "C20.b", "C20.c", "C20.f", "C20.l"])
+@analysis("orderbook", ["C20.a", "C20.b", "C20.c", "C20.f", "C20.l", "C20.m"])
 def run(ctx):
     p = ctx.p
     ob = p.cls("OrderBook")
     fn = ob.methods.get("setup_optim_problem")
     ctx.require(fn is not None, "OrderBook.setup_optim_problem vanished")
     ff = ctx.flow(fn)
+    # ---- C20.m orders without steps
+    pinned = False
+    for lp in [s0 for s0 in au.walk_stmts(fn.body) if isinstance(s0, ast.For)]:
+        for iff in [s0 for s0 in au.walk_stmts(lp.body) if isinstance(s0, ast.If)]:
+            t, pol = au.strip_not(iff.test)
+            empt = (isinstance(t, ast.Call) and au.method_name(t) in ("any",) and not pol) or \
+                (isinstance(t, ast.Compare) and len(t.ops) == 1 and au.const_num(t.comparators[0]) == 0 and isinstance(t.left, ast.Call) and au.method_name(t.left) in ("sum", "len", "count_nonzero"))
+            if not empt:
+                continue
+            for s1 in au.walk_stmts(iff.body):
+                if isinstance(s1, ast.Assign) and isinstance(s1.targets[0], ast.Subscript) and au.const_num(s1.value) == 0 \
+                        and (set(au.target_names(lp.target)) & au.names_in(s1.targets[0].slice)):
+                    from ..carriers import local_roles as _lr, role as _role
+                    if _role(s1.targets[0].value, _lr(fn)) == "u" or au.U(s1.targets[0].value) == "u":
+                        pinned = True
+    ctx.ob("C20.m", fn, "orders without a step in the horizon are pinned to 0", pinned,
+           "an order that covers no step of the horizon keeps the bounds [0, 1] but gets no mapping row: with full execution enforced its "
+           "variable is not flagged boolean (the flag lives in the mapping) and, having neither cost nor restriction, may come back at any "
+           "fraction - e.g. 0.5 - although the property says 'exactly 0 or 1'", node=fn.node,
+           key="orders without a step in the horizon are pinned to 0")
     # ---- C20.l skipping an order
     org_l = ctx.origins(fn)
     for lp in [s0 for s0 in au.walk_stmts(fn.body) if isinstance(s0, ast.For)]:
